@@ -3629,3 +3629,110 @@ def r04_12(ctx, rule):
 @extra('C08', 'R08.15', 'the files the merged notebook / the decisions are written to are opened with an explicit UTF-8 encoding', 1)
 def r08_15(ctx, rule):
     _r_output_utf8(ctx, rule)
+
+
+def _r_strict_reflexive(ctx, rule):
+    """x == x is false for exactly one value Python's json module reads: NaN.  A comparison used to decide "unchanged" / "both sides did the same" must treat it as
+    equal to itself, or a document containing NaN differs from itself (diff(a, a) is not empty, merge(b, b, b) conflicts)."""
+    repo = ctx.repo
+    fid = 'nbdime.diffing.generic:compare_strict'
+    fn = repo.func(fid)
+    ps = [a.arg for a in fn.args.args]
+    if len(ps) != 2:
+        raise AnalysisError('compare_strict: not a binary predicate')
+    self_ne = [c for c in ast.walk(fn) if isinstance(c, ast.Compare) and len(c.ops) == 1 and isinstance(c.ops[0], ast.NotEq) and isinstance(c.left, ast.Name) and
+               isinstance(c.comparators[0], ast.Name) and c.left.id == c.comparators[0].id and c.left.id in ps]
+    isnan = [c for c in ast.walk(fn) if isinstance(c, ast.Call) and (dotted(c.func) or '').endswith('isnan')]
+    ident = [c for c in ast.walk(fn) if isinstance(c, ast.Compare) and len(c.ops) == 1 and isinstance(c.ops[0], ast.Is) and {dotted(c.left), dotted(c.comparators[0])} == set(ps)]
+    both = {c.left.id for c in self_ne} == set(ps) or len(isnan) >= 2
+    ctx.inst(rule, fid, 'NaN clause: %s' % ('x != x and y != y' if self_ne else 'isnan' if isnan else 'none'), both,
+             'the one value that is not equal to itself is treated as equal to itself' if both else
+             'the predicate is `==` plus the number-type test and has no clause for NaN (identity `is` does not help: the two documents are separate objects): '
+             'a notebook with NaN in a JSON payload or in metadata -- which nbformat reads, validates and writes -- differs from itself; merge(b, b, b) reports a conflict', fn)
+
+
+@extra('C05', 'R05.14', 'the type-strict equality is reflexive for every value the JSON reader produces, NaN included', 1)
+def r05_14(ctx, rule):
+    _r_strict_reflexive(ctx, rule)
+
+
+@extra('C02', 'R02.22', 'the type-strict equality is reflexive for every value the JSON reader produces, NaN included (else diff(a, a) is not empty)', 1)
+def r02_22(ctx, rule):
+    _r_strict_reflexive(ctx, rule)
+
+
+@extra('C11', 'R11.14', 'the canonical form combine_patches gives the diffs collected from several decisions has at most ONE insertion per index, as it has one patch per key: '
+       'insertions of one index are joined (two addrange entries on one key are not a well-formed list diff)', 1)
+def r11_14(ctx, rule):
+    from .. import mergefacts as mf
+    repo = ctx.repo
+    consts = mf.diffop_consts(repo)
+    fid = 'nbdime.merging.strategies:combine_patches'
+    fn = repo.func(fid)
+    ops_tested = set()
+    for c in ast.walk(fn):
+        if isinstance(c, ast.Compare) and len(c.ops) == 1 and isinstance(c.ops[0], (ast.Eq, ast.In)) and isinstance(c.left, ast.Attribute) and c.left.attr == 'op':
+            for x in ast.walk(c.comparators[0]):
+                v = consts.get(dotted(x) or '')
+                if v:
+                    ops_tested.add(v)
+    add = consts.get('DiffOp.ADDRANGE')
+    joins = False
+    if add in ops_tested:
+        # the arm for insertions must concatenate value lists of entries with the same key
+        joins = any(isinstance(x, ast.BinOp) and isinstance(x.op, ast.Add) and any(isinstance(y, ast.Attribute) and y.attr == 'valuelist' for y in ast.walk(x)) for x in ast.walk(fn)) or \
+            any(isinstance(x, ast.Call) and isinstance(x.func, ast.Attribute) and x.func.attr == 'extend' and any(isinstance(y, ast.Attribute) and y.attr == 'valuelist' for y in ast.walk(x))
+                for x in ast.walk(fn))
+    ctx.inst(rule, fid, 'ops given a case of their own: %s' % sorted(ops_tested), joins,
+             'insertions of one index are joined' if joins else
+             'only patches are combined: when one side\'s insertion at an index was split into two decisions (an agreed part and a conflicting part) and a resolver collects '
+             'them again, the decision it registers carries two addrange entries on that index in local_diff / remote_diff', fn)
+
+
+@extra('C11', 'R11.15', 'a removal the merge code builds by hand has a positive length: `op_removerange(k, len(x))` only where x is known to be non-empty (a removal of nothing '
+       'is not an entry any differ emits; the builders drop it)', 1)
+def r11_15(ctx, rule):
+    from ..util import local_defs, truth_under
+    from ..cfg import CFG, cond_guards
+    repo, cg = ctx.repo, ctx.cg
+    n = 0
+    for fid, fn in sorted(repo.functions.items()):
+        if not fid.startswith('nbdime.merging.strategies:'):
+            continue
+        g = None
+        for c in calls_in(fn, nested=False):
+            if ('func', 'nbdime.diff_format:op_removerange') not in cg.resolve(c.func, fn) or len(c.args) < 2:
+                continue
+            L = c.args[1]
+            if not (isinstance(L, ast.Call) and dotted(L.func) == 'len' and L.args):
+                continue
+            n += 1
+            subj = ast.unparse(L.args[0])
+            g = g or CFG(fn)
+            st = repo.stmt_of(c)
+            guards = list(cond_guards(g, st))
+            p_, ch = repo.parent(c), c
+            while p_ is not None and not isinstance(p_, ast.stmt):
+                if isinstance(p_, ast.IfExp) and ch is p_.body:
+                    guards.append((p_.test, True))
+                elif isinstance(p_, ast.IfExp) and ch is p_.orelse:
+                    guards.append((p_.test, False))
+                ch, p_ = p_, repo.parent(p_)
+            def _nonempty(t, pol):
+                if isinstance(t, ast.UnaryOp) and isinstance(t.op, ast.Not):
+                    return _nonempty(t.operand, not pol)
+                if isinstance(t, ast.BoolOp) and ((isinstance(t.op, ast.And) and pol) or (isinstance(t.op, ast.Or) and not pol)):
+                    return any(_nonempty(v, pol) for v in t.values)
+                if isinstance(t, ast.Compare) and len(t.ops) == 1 and isinstance(t.left, ast.Call) and dotted(t.left.func) == 'len' and t.left.args and \
+                        ast.unparse(t.left.args[0]) == subj and isinstance(const_val(t.comparators[0]), int):
+                    k_ = const_val(t.comparators[0])
+                    op = t.ops[0]
+                    if pol:
+                        return (isinstance(op, ast.Gt) and k_ >= 0) or (isinstance(op, ast.GtE) and k_ >= 1) or (isinstance(op, ast.NotEq) and k_ == 0)
+                    return (isinstance(op, ast.Eq) and k_ == 0) or (isinstance(op, ast.Lt) and k_ <= 1) or (isinstance(op, ast.LtE) and k_ <= 0)
+                return truth_under(t, pol, lambda e: ast.unparse(e) == subj or (isinstance(e, ast.Call) and dotted(e.func) == 'len' and e.args and ast.unparse(e.args[0]) == subj)) is True
+            ok = any(_nonempty(t, pol) for t, pol in guards)
+            ctx.inst(rule, fid, repo.norm(c), ok, 'guarded by the emptiness of %s' % subj if ok else
+                     'nothing on the way to this removal rules out an empty %s: the custom diff then holds removerange(0, 0), an entry that removes nothing' % subj, c)
+    if n == 0:
+        ctx.inst(rule, 'nbdime.merging.strategies', 'no hand-built removal whose length is a len(...)', True, 'nothing to guard', None, nontrivial=False)
